@@ -176,8 +176,9 @@ def c08_product(p: int, l0: int, l1: int, l2: int, mp: int, ml: int, fp: int, fl
     pre: 1 <= p <= 3 and 0 <= l0 <= 3 and 0 <= l1 <= 3 and 0 <= l2 <= 3 and 0 <= mp <= 2 and 1 <= ml <= 2 and 0 <= fp <= 2 and 0 <= fl <= 3
     post: _
     """
-    p, l0, mp, fp = pick(p, 1, 4), pick(l0, 0, 4), pick(mp, 0, 3), pick(fp, 0, 3)
-    l1 = pick(l1, 0, 4) if p >= 2 else 0
+    LMAX = 4 if THOROUGH else 3            # quick: 0-2 instantiations per list
+    p, l0, mp, fp = pick(p, 1, 4), pick(l0, 0, LMAX), pick(mp, 0, 3), pick(fp, 0, 3)
+    l1 = pick(l1, 0, LMAX) if p >= 2 else 0
     l2 = pick(l2, 0, 4) if (p >= 3 and THOROUGH) else ((l0 + l1) % 4 if p >= 3 else 0)
     ml = pick(ml, 1, 3) if mp else 1
     fl = pick(fl, 0, 4) if (fp and THOROUGH) else (l0 + 1) % 4
@@ -208,7 +209,7 @@ def conds(tier):
     M = "harness.c08_product"
     return [
         xh.Cond(M, "c08_product", t(420, 3000), kind="shape-bounded", path_timeout=60, examples=["p=2, l0=2, l1=3, l2=0, mp=1, ml=2, fp=2, fl=2", "p=3, l0=1, l1=0, l2=2, mp=0, ml=1, fp=0, fl=0", "p=1, l0=0, l1=0, l2=0, mp=2, ml=1, fp=1, fl=3"],
-                bounds="1-3 class parameters x 0-3 instantiations each (third list %s) x 0-2 member-template parameters x 0-2 function-template parameters" % ("free" if not q else "derived")),
+                bounds="1-3 class parameters x 0-%s instantiations each (third list %s) x 0-2 member-template parameters x 0-2 function-template parameters" % ("3" if not q else "2", "free" if not q else "derived")),
         xh.Cond(M, "c08_typedefs", t(300, 1200), kind="shape-bounded", path_timeout=60, examples=["td_kind=1, td_place=2, p=2, nsdepth=1, l0=1", "td_kind=3, td_place=3, p=1, nsdepth=2, l0=0", "td_kind=2, td_place=0, p=1, nsdepth=0, l0=2"],
                 bounds="3 typedef targets x 4 placements x 1-2 parameters x namespace depth 0-2 x 0-2 enumerated instantiations"),
     ]
